@@ -57,46 +57,34 @@ mod verif_kani_zbsdiff {
         if n == expected { Some(n) } else { None }
     }
 
-    /// C16 (bounded: <= 2 control triples, <= 4 output bytes, old <= 4 bytes, sizes/seeks small):
-    /// apply_patch_with_data == the bspatch oracle; Ok(out) => out.len() == expected
+    /// C16 (bounded: two control triples of shape (2,1,s1),(1,1,s2) with symbolic seeks -4..=4, symbolic
+    /// 3-byte old, 3-byte diff and 2-byte extra streams, symbolic expected size): apply_patch_with_data ==
+    /// the bspatch oracle; Ok(out) => out.len() == expected
     #[kani::proof]
-    #[kani::unwind(5)]
+    #[kani::unwind(6)]
     #[kani::stub(alloc::fmt::format, empty_format)]
     fn apply_matches_oracle_bounded() {
         let oldb: [u8; 3] = kani::any();
-        let ol: usize = kani::any();
-        kani::assume(ol <= 3);
-        let diffb: [u8; 4] = kani::any();
-        let dl: usize = kani::any();
-        kani::assume(dl <= 4);
-        let extrab: [u8; 4] = kani::any();
-        let el: usize = kani::any();
-        kani::assume(el <= 4);
-        let nc: usize = kani::any();
-        kani::assume(nc >= 1 && nc <= 2);
-        let c: [(i64, i64, i64); 2] = kani::any();
-        let mut t = 0;
-        while t < 2 {
-            kani::assume(c[t].0 >= 0 && c[t].0 <= 2 && c[t].1 >= 0 && c[t].1 <= 2 && c[t].2 >= -3 && c[t].2 <= 3);
-            t += 1;
-        }
-        kani::assume(nc == 1 || (c[0].0 + c[0].1 <= 2));
+        let diffb: [u8; 3] = kani::any();
+        let extrab: [u8; 2] = kani::any();
+        let s1: i64 = kani::any();
+        let s2: i64 = kani::any();
+        kani::assume(s1 >= -4 && s1 <= 4 && s2 >= -4 && s2 <= 4);
+        let c: [(i64, i64, i64); 2] = [(2, 1, s1), (1, 1, s2)];
         let expected: usize = kani::any();
-        kani::assume(expected <= 4);
+        kani::assume(expected <= 6);
         let mut entries = Vec::new();
         entries.push(ControlEntry::new(c[0].0, c[0].1, c[0].2));
-        if nc == 2 {
-            entries.push(ControlEntry::new(c[1].0, c[1].1, c[1].2));
-        }
+        entries.push(ControlEntry::new(c[1].0, c[1].1, c[1].2));
         let block = ControlBlock { entries };
-        let r = apply_patch_with_data(&oldb[..ol], &block, &diffb[..dl], &extrab[..el], expected);
+        let r = apply_patch_with_data(&oldb, &block, &diffb, &extrab, expected);
         let mut so = [0u8; 8];
-        let s = spec_apply(&oldb[..ol], &c[..nc], &diffb[..dl], &extrab[..el], expected, &mut so);
+        let s = spec_apply(&oldb, &c, &diffb, &extrab, expected, &mut so);
         match (&r, s) {
             (Ok(out), Some(n)) => {
                 assert!(out.len() == expected && n == expected, "Ok => exactly the stated length");
                 let mut i = 0;
-                while i < 4 {
+                while i < 5 {
                     if i < n {
                         assert!(out[i] == so[i], "output == bspatch oracle");
                     }
@@ -107,7 +95,8 @@ mod verif_kani_zbsdiff {
             (Ok(_), None) => assert!(false, "code accepted a patch the oracle rejects"),
             (Err(_), Some(_)) => assert!(false, "code rejected a patch the oracle applies"),
         }
-        kani::cover!(r.is_ok() && nc == 2 && expected == 4);
+        kani::cover!(r.is_ok());
+        kani::cover!(r.is_err());
         core::mem::forget(r);
     }
 }
